@@ -1,3 +1,4 @@
+import RR.Gen.HdlcStatus
 import RR.Proof.HdlcTable
 import RR.Proof.HdlcRoundtrip
 import RR.Proof.HdlcResync
